@@ -263,7 +263,9 @@ class Ref:
             for x in [nm] + ex:
                 if not x or x[0] == DASH or any(b < 1 or b > hi for b in x):
                     return False
-            if a and (a < 1 or a > 126 or a == DASH):
+            # alias characters: every byte 1..255 except '-' is judged (the '-c' key is looked up EXACTLY, the CHAR_MAX sentinel of
+            # the prefix range never meets it: a name key does not start with '-'); the Coq domain stops at 126 (ASSUMPTIONS)
+            if a and (a < 1 or a > 255 or a == DASH):
                 return False
         return True
 
@@ -662,7 +664,7 @@ def gen_one(rnd, kind, nkeys):
     AB = [97, 98]
     alpha = {'shared-prefixes': AB, 'prefix-chain': [97], 'boundary-bytes': [97, 1, 126, 125, 2],
              'alias-clash': [97, 98, 99], 'merge': AB + [99], 'alias-names': AB + [110], 'high-bytes': [97, 127, 128, 255, 126],
-             'dash-inside': [97, 45, 98], 'parser': [104, 101, 108, 112, 117], 'parser-seq': [120, 118, 113, 97]}[kind]
+             'dash-inside': [97, 45, 98], 'parser': [104, 101, 108, 112, 117], 'parser-seq': [120, 118, 113, 97], 'high-alias': AB + [99]}[kind]
     ops = []
     caps = [[], [71], [72]]
     aliases = [0, 0, 0, 120, 121, 122, 97]
@@ -729,6 +731,23 @@ def gen_one(rnd, kind, nkeys):
                 ops.append((1, (rnd.choice(caps), part)))
         if rnd.random() < 0.3:
             ops.append((2, rnd.choice([S('xx'), S('vv'), S('q2'), mkname()]), rnd.randrange(len(os_))))
+    elif kind == 'high-alias':
+        # one-character aliases with the high bit set (char is signed on the harness platform: 0x80..0xff are NEGATIVE chars; seeded C14-r16 tested
+        # `alias() > 0`): 0x80 / 0xe9 / 0xff next to 0x7f, 0x7e and ASCII; the same alias twice (within a group, across groups, through a merged
+        # context), alias names behind them, lookups by the alias character with and without '-', between the additions and at the end
+        HI = [128, 233, 255, 127, 126, 120]
+        for _ in range(rnd.randint(2, 4)):
+            os_ = [(mkname(), rnd.choice([0] + HI + HI[:3])) for _ in range(rnd.randint(1, 3))]
+            if rnd.random() < 0.7:
+                ops.append((1, (rnd.choice(caps), os_)))
+            else:
+                ops.append((3, [(rnd.choice(caps), os_)] + [(rnd.choice(caps), mkopts(rnd.randint(0, 2))) for _ in range(rnd.randint(0, 1))]))
+            if rnd.random() < 0.4:
+                ops += lookups(rnd, [([rnd.choice(HI)], 4), ([DASH, rnd.choice(HI)], 4), ([rnd.choice(HI[:3])], 4)], 0.1)
+            if rnd.random() < 0.3:
+                ops.append((2, mkname(), rnd.randint(0, 6)))
+        al0 = all_names(ops)[1]
+        ops += lookups(rnd, [([a], 4) for a in al0[:4]] + [([DASH, a], 4) for a in al0[:4]], 0.0)
     elif kind == 'merge':
         for _ in range(rnd.randint(1, 3)):
             if rnd.random() < 0.5:
@@ -778,7 +797,8 @@ def gen_one(rnd, kind, nkeys):
     return encode(ops)
 
 
-KINDS = ['shared-prefixes', 'prefix-chain', 'boundary-bytes', 'alias-clash', 'merge', 'alias-names', 'alias-names', 'dash-inside', 'high-bytes', 'parser', 'parser', 'parser-seq', 'parser-seq']
+KINDS = ['shared-prefixes', 'prefix-chain', 'boundary-bytes', 'alias-clash', 'merge', 'alias-names', 'alias-names', 'dash-inside', 'high-bytes', 'parser', 'parser', 'parser-seq', 'parser-seq',
+         'high-alias', 'high-alias']
 
 
 def S(s):
@@ -795,6 +815,18 @@ def fixed_cases():
     out.append((encode([(1, ([], [(S('help'), 104), (S('help2'), 0)])), (5, S('help'), 1), (5, S('help'), 3), (5, S('help'), 2), (2, S('Hilfe'), 0),
                         (5, S('Hilfe'), 1), (4, S('he'), 2), (4, S('h'), 4), (4, S('-h'), 4), (4, S('q'), 4), (4, S('help3'), 3)]), {'kind': 'repo-test-context'}))
     out.append((encode([(1, ([], [([99, 97, 102, 233], 0), (S('other'), 0)])), (4, S('caf'), 2), (4, S('caf'), 3), (4, [99, 97, 102, 233], 1)]), {'kind': 'known-highbyte'}))
+    # one-character aliases with the high bit set (negative chars; seeded C14-r16 `alias() > 0`): found by alias lookup with and without '-',
+    # by find / tryFind / findImpl, a second option with the same alias is refused (also through a merged context and within one group), the
+    # refused group leaves nothing behind, 0x7f / ASCII as controls, an alias name behind such an option
+    E9, X80, XFF, X7F = 233, 128, 255, 127
+    out.append((encode([(1, (S('G'), [(S('cafe'), E9), (S('low'), X80), (S('del'), X7F), (S('last'), XFF), (S('plain'), 120)])),
+                        (4, [E9], 4), (4, [DASH, E9], 4), (5, [X80], 4), (5, [DASH, X80], 4), (6, [XFF], 4, 3), (6, [DASH, XFF], 4, 0), (4, [X7F], 4), (5, [DASH, X7F], 4),
+                        (4, S('x'), 4), (4, [234], 4), (5, [DASH, 129], 4), (6, [254], 4, 0),
+                        (1, (S('H'), [(S('other'), E9)])), (1, (S('H'), [(S('ok'), 0), (S('other2'), X80)])), (3, [(S('I'), [(S('other3'), XFF)])]),
+                        (1, (S('J'), [(S('p'), 200), (S('q'), 200)])), (2, S('kaffee'), 0), (4, S('kaf'), 2), (4, S('caf'), 3), (4, [E9], 4), (4, [200], 4), (5, S('ok'), 1)]),
+                {'kind': 'high-alias'}))
+    out.append((encode([(1, ([], [(S('a'), E9)])), (1, ([], [(S('b'), E9)])), (4, [E9], 4), (5, [DASH, E9], 4)]), {'kind': 'high-alias'}))
+    out.append((encode([(3, [(S('G'), [(S('a'), XFF), (S('b'), X80)])]), (3, [(S('G'), [(S('c'), X80)])]), (6, [X80], 4, 3), (6, [XFF], 4, 3), (4, S('c'), 1)]), {'kind': 'high-alias'}))
     # the parsers (DefaultContext::getOption): --he with help / heuristic is ambiguous through every entry point, allowUnregistered on and off;
     # an exact name that is a prefix of others, a unique prefix, an alias name, an unknown key, the short spelling
     ctx = [(1, (S('Basic'), [(S('help'), 104), (S('heuristic'), 0), (S('he-x'), 0)])), (1, (S('Other'), [(S('opt'), 0), (S('option'), 0), (S('number'), 110)])),
@@ -949,7 +981,7 @@ RULE = ('cases = (a sequence of add(group) / addAlias / add(context) calls build
         'token must resolve exactly as it would alone)); generators: names over {a,b} sharing prefixes, chains of names that are prefixes of each other, names ending '
         'in bytes 0x01/0x7d/0x7e next to the CHAR_MAX sentinel, alias and name clashes across groups (refusals, then lookups), merged captions and merged contexts, '
         'alias names sharing a prefix with their own option, names containing "-", program-like names (help / heuristic / he, opt / option / options) looked up '
-        'through the parsers with ambiguous prefixes, prefixes of nothing, exact names that are prefixes of others and alias names, and (correspondence only) bytes >= 0x7f; keys = names, proper prefixes, '
+        'through the parsers with ambiguous prefixes, prefixes of nothing, exact names that are prefixes of others and alias names, and (correspondence only) bytes >= 0x7f; ONE-CHARACTER ALIASES WITH THE HIGH BIT SET (kind high-alias, 2/15 of the cases + 3 fixed cases: alias bytes 0x80 / 0xe9 / 0xff - negative chars - next to 0x7f, 0x7e and ASCII; the same alias twice within a group, across groups and through a merged context; alias names behind such options; find / tryFind / findImpl by the alias character with and without "-", between the additions and at the end; judged by the oracle; the short spelling -c of the parsers is skipped for such bytes as not spellable); keys = names, proper prefixes, '
         'extensions, neighbours in sort order, alias characters with and without "-"; non-trivial = at least two options declared and at least one lookup; '
         'contexts of MORE THAN 65536 OPTIONS (op 9: a group of 65535..66200 generated options o0000, o0001, .. added at once, then ordinary options / alias names / merged contexts behind them): names with index '
         '0, 1, 65534..65537, last; late options and alias names sharing a prefix with option #(n-65536); every lookup mode and the parsers; a control below the boundary; small and refused forms of op 9; '
@@ -959,6 +991,8 @@ TRUSTED_BASE = ['std::map<std::string,size_t> (ordering, insert, erase, lower_bo
                 'tools/consts/C14.py anchors (FindType values, CHAR_MAX of the harness compiler, error-mask bits, shape of findImpl/insertOption, declared type of OptionContext::key_type and the integer limits of the harness compiler)']
 ASSUMPTIONS = ['option names and alias names: non-empty, bytes 1..126, not starting with "-"; alias characters in 1..126 and not "-" (bytes >= 0x7f after the key are '
                'outside the CHAR_MAX sentinel argument: correspondence only, not judged by the oracle)',
+               'alias characters 0x7f..0xff: outside the domain of the Coq theorems, but generated, compared with the model (which treats the alias as a byte 1..255: key "-c" iff alias != 0) and JUDGED by '
+               'the python oracle (refusal of a taken alias, alias lookup with and without "-", final index) - the "-c" key is looked up exactly and never meets the CHAR_MAX sentinel',
                'keys: non-empty; name lookups with keys not starting with "-"; alias lookups with keys "c" or "-c"',
                'alias names (addAlias) count as names of their option for exact AND prefix lookup',
                'names without newline (the harness reads the candidates from the AmbiguousOption message)',
@@ -971,7 +1005,7 @@ LEVEL_TEXT = ('Machine-checked proof (Coq): for every context reachable through 
               'the option number stored in the index (key_type, range generated from the typedef) is exact and injective for every reachable context of at most key_max+1 options, and key_max >= 2^32-1 '
               '(2^32 options are beyond memory-exhaustion scale); the closed form by which the model adds a group of up to 70000 generated options equals the generic add(group) for every count; '
               'the [lower_bound k, upper_bound k.0x7f) range is exactly the set of index entries with prefix k; additions are refused '
-              'iff a key is taken and leave the index unchanged. Model tied to the code by differential correspondence incl. a dump of the private index and lookups through the four real parser entry points.')
+              'iff a key is taken and leave the index unchanged. Tested beyond the proved domain (correspondence + oracle, no theorem): alias characters with the high bit set (0x80..0xff) get their "-c" key, are found by alias lookup and refuse a second use. Model tied to the code by differential correspondence incl. a dump of the private index and lookups through the four real parser entry points.')
 LEVEL_NOTE = ('Trusted: Coq kernel, extraction+driver (sample cross-checked by vm_compute), harness, translator; std::map modelled; names/keys over bytes 1..126.')
 TECHNIQUE = 'Coq proof about an executable model of the sorted index + differential correspondence with the implementation'
 DESIGN_REF = 'DESIGN.md section 5, C14'
